@@ -33,7 +33,7 @@ Load(r) ==
   /\ built = [x \in LazyOwners |-> FALSE] /\ nev = [x \in LazyOwners |-> 0]
   /\ tags = [h \in TagHolders |-> {}] /\ entry = [m \in Modules |-> NONE]
   /\ scal = [h \in ScalHolders |-> [f \in FieldsOf(h) |-> ScalDef[f]]] /\ shadow = [i \in IRs |-> NoShadow]
-  /\ op = [name |-> "judge"] /\ obs = <<>>
+  /\ op = [name |-> "judge"]
 
 JInit == idx \in 1..N /\ Load(Recs[idx])
 JNext == FALSE /\ UNCHANGED jvars
